@@ -517,13 +517,15 @@ Proof.
                (apply_wrs (mm s) [WLock 1; WBase (base (mm s) + 1); WLock 0], TDone x,
                 pushed s, returned s ++ [x])).
   { unfold s1, x. cbn [mm pushed returned]. apply titer_take; auto. }
-  destruct (run_solo_ticks i 7 s1 _ eq_refl Hi1 _ _ _ _ Et) as (I1 & I2 & I3 & I4 & I5 & I6 & I7 & I8).
+  pose proof (run_solo_ticks i 7 s1 _ eq_refl Hi1 _ _ _ _ Et) as I. cbv zeta in I.
+  remember (run step (repeat (S i, Tick) 7) s1) as sf eqn:Esf. clear Esf.
+  destruct I as (I1 & I2 & I3 & I4 & I5 & I6 & I7 & I8).
   assert (Hx : In x (pushed s)).
   { eapply Permutation_in; [apply Permutation_sym; exact N5|].
     apply in_or_app. right. rewrite zseg_cons by lia. left. reflexivity. }
-  repeat split; auto; try (rewrite I1; reflexivity).
+  repeat split; try assumption; try (rewrite I1; reflexivity).
   unfold live, Teff, Beff. rewrite I1, I5.
-  assert (Hq' : cnt hc (thv (run step (repeat (S i, Tick) 7) s1)) = 0).
+  assert (Hq' : cnt hc (thv sf) = 0).
   { apply (all_nohold_aggr (mm s)). intros j pc Hj.
     destruct (Nat.eq_dec j i) as [->|Hne'].
     - rewrite I2 in Hj. inversion Hj. reflexivity.
@@ -604,7 +606,7 @@ Theorem inv_reachable_expanded s : reachable init step s ->
   (forall t i m b, own s = OPopFast t -> nth_error (thv s) i = Some (TSlot m b) -> 0 <= b < t).
 Proof.
   intros H. destruct (inv_reachable s H) as [S1 S2 [S3 [S3' S3'']] S4 S5 [S6 S6'] S7].
-  repeat split; auto; lia.
+  repeat (split; [assumption|]). exact S7.
 Qed.
 
 (** every capacity, every number of thieves, every schedule (hence every sequence of
